@@ -73,12 +73,28 @@ func (u *Universe) plans(st *SpecTables) map[string]*PropPlan {
 		return out
 	}
 	P := map[string]*PropPlan{}
+	objFuncs0 := func(alias string, names ...string) []Unit {
+		var out []Unit
+		for _, t := range []string{"Base", "Temporal", "Environmental"} {
+			for _, n := range names {
+				u := Unit{Func: alias + "." + t + "." + n}
+				if n == "Decode" {
+					u.Scen = true
+				}
+				out = append(out, u)
+			}
+		}
+		return out
+	}
+	// the decoders tie "vector" to "fields" for the score properties (their statements quantify over vectors)
+	vecV3 := cat([]Unit{{Func: "v3m.NewBase"}, {Func: "v3m.NewTemporal"}, {Func: "v3m.NewEnvironmental"}, {Func: "v3m.GetVersion"}, {Func: "v3m.get"}}, objFuncs0("v3m", "decodeOne", "GetError", "Decode", "BaseMetrics", "TemporalMetrics"))
+	vecV2 := cat([]Unit{{Func: "v2m.NewBase"}, {Func: "v2m.NewTemporal"}, {Func: "v2m.NewEnvironmental"}}, objFuncs0("v2m", "decodeOne", "GetError", "IsEmpty", "Encode", "Decode", "BaseMetrics", "TemporalMetrics"))
 	P["C01"] = &PropPlan{ID: "C01", Title: "v3 base score = FIRST base equations",
 		Units: cat(v3("AV", "AC", "PR", "UI", "S", "C", "I", "A"), []Unit{
 			{Func: "v3m.Base.GetError"},
 			{Func: "v3m.Base.Score", Families: []string{"base"}},
-		}),
-		Assumptions: []string{"A5", "A9", "A10"},
+		}, v3(), vecV3),
+		Assumptions: []string{"A1", "A2", "A5", "A9", "A10"},
 		Meta: []string{"Decoder independence: Score is a function of the exported fields only (frame 'modifies nothing' + functional postcondition), so the score of a decoded object is the score of its fields whichever decoder produced them (fields per C09)."},
 	}
 	P["C02"] = &PropPlan{ID: "C02", Title: "v3 temporal score = Roundup(Base x E x RL x RC) on the rounded base score",
@@ -88,8 +104,8 @@ func (u *Universe) plans(st *SpecTables) map[string]*PropPlan {
 			{Func: "v3m.Temporal.GetError"},
 			{Func: "v3m.Temporal.Score", Families: []string{"temporal"}},
 			{Lemma: "v3_temporal_compose"},
-		}),
-		Assumptions: []string{"A5", "A9", "A10"},
+		}, v3(), vecV3),
+		Assumptions: []string{"A1", "A2", "A5", "A9", "A10"},
 		Meta: []string{"Composition: Base.Score() === tenth(kb) with kb = v3_base_k(fields) (C01 family 'base'); Temporal.Score() === tenth(v3_outer_k(kb, E, RL, RC)) for every kb in 0..100 (family 'temporal'); v3_temporal_k = v3_outer_k o v3_base_k by definition (lemma v3_temporal_compose)."},
 	}
 	P["C03"] = &PropPlan{ID: "C03", Title: "v3 environmental score = FIRST environmental equations",
@@ -97,8 +113,8 @@ func (u *Universe) plans(st *SpecTables) map[string]*PropPlan {
 			{Func: "v3m.Base.GetError"}, {Func: "v3m.Temporal.GetError"}, {Func: "v3m.Environmental.GetError"},
 			{Func: "v3m.Environmental.Score", Families: []string{"inner", "outer"}},
 			{Lemma: "v3_env_compose"},
-		}),
-		Assumptions: []string{"A5", "A9", "A10"},
+		}, v3(), vecV3),
+		Assumptions: []string{"A1", "A2", "A5", "A9", "A10"},
 		Meta: []string{"Composition: family 'inner' shows that, for every combination of version, effective metrics and requirements, a non-positive modified impact returns 0 and otherwise the inner Roundup equals tenth(v3_env_inner_k) (and lies in 0..100); family 'outer' shows the outer Roundup(inner x E x RL x RC) for every inner value 0..100; v3_env_k is their composition by definition (lemma v3_env_compose). 'Not Defined takes the base value' is carried by the Modified*.Value contracts (effective metric eff_v3_*)."},
 	}
 	P["C04"] = &PropPlan{ID: "C04", Title: "v2 base and temporal scores = FIRST v2 equations",
@@ -107,8 +123,8 @@ func (u *Universe) plans(st *SpecTables) map[string]*PropPlan {
 			{Func: "v2m.Base.Score", Families: []string{"base"}},
 			{Func: "v2m.Temporal.IsEmpty"}, {Func: "v2m.Temporal.GetError"},
 			{Func: "v2m.Temporal.Score", Families: []string{"temporal", "empty"}},
-		}),
-		Assumptions: []string{"A9", "A10"},
+		}, v2(), vecV2),
+		Assumptions: []string{"A1", "A2", "A3", "A4", "A9", "A10"},
 		Meta: []string{"Composition: Base.Score() is fp-equal to tenth(kb), kb a nearest tenth of the exact base equation (family 'base'); Temporal.Score() is a nearest tenth of (kb/10) x E x RL x RC for every kb in 0..100 incl. -0.0 (family 'temporal'), and equals the base score when the temporal group is absent (family 'empty')."},
 	}
 	P["C05"] = &PropPlan{ID: "C05", Title: "v2 environmental score = FIRST v2 environmental equations",
@@ -117,8 +133,8 @@ func (u *Universe) plans(st *SpecTables) map[string]*PropPlan {
 			{Func: "v2m.Temporal.IsEmpty"}, {Func: "v2m.Temporal.GetError"},
 			{Func: "v2m.Environmental.IsEmpty"}, {Func: "v2m.Environmental.GetError"},
 			{Func: "v2m.Environmental.Score", Families: []string{"adjbase", "adjgrid", "adjtemp", "final", "final0", "none", "none0"}},
-		}),
-		Assumptions: []string{"A9", "A10"},
+		}, v2(), vecV2),
+		Assumptions: []string{"A1", "A2", "A3", "A4", "A9", "A10"},
 		Meta: []string{"Stages: 'adjbase' (adjusted base score is a nearest tenth of the base equation on AdjustedImpact, 46,656 instances), 'adjtemp' (temporal equation on every adjusted base score -2.0..10.0), 'final'/'final0' (CDP/TD equation on every adjusted temporal score), 'none'/'none0' (environmental group absent: temporal score). Exact halves may round either way at every rounding step (near1)."},
 	}
 	scoreUnitsV3 := []Unit{
